@@ -26,8 +26,8 @@ Translation scheme
   self._parse_offset(v)                ↦ tzical_parseOffset v   (translated in TzObjKernels)
   rrule.rrulestr("\\n".join(L), compatible=True, ignoretz=True, cache=True)
                                        ↦ RfcPy.rrulestr rrulestr L : the call may raise; the rule set it returns is represented
-                                         by the lines it was read from and by the `_interval` of every member of
-                                         `rr._rrule + rr._exrule` (the only thing `_parse_rfc` reads from it)
+                                         by the lines it was read from (and by the `_interval` of every member of
+                                         `rr._rrule + rr._exrule`, should `_parse_rfc` read them)
   rr._rrule + rr._exrule               ↦ rr.intervals (a rule object is represented by its `_interval`; `r._interval` ↦ r)
   _tzicalvtzcomp(f, t, isdst, name, rr) ↦ RfcPy.mkComp … (TypeError for a None offset, as timedelta(seconds=None))
   self._vtz[tzid] = _tzicalvtz(tzid, comps) ↦ vtz := ICal.putVtz vtz (RfcPy.mkVtz tzid comps)   (insertion-ordered dict)
